@@ -27,7 +27,8 @@ Inductive clabel :=
 | CStart                          (* APIClient.start_connection() *)
 | CFinish (lg : bool)             (* APIClient.finish_connection(login) *)
 | CDisconnect (force : bool)      (* APIClient.disconnect(force) *)
-| CCommand (tys : list N)         (* any command / subscription / request entry point: _get_connection() then send *)
+| CCommand (tys : list N)         (* any command / subscription entry point: _get_connection() then send *)
+| CRequest                        (* a request/response entry point (device_info): _get_connection() then send and wait *)
 | CConn (l : label).              (* a callback of the current connection object / an environment event *)
 
 Inductive cobs := CO (o : obs) | CRaiseAlready | CRaiseNotConnected | CRaiseNotReady.
@@ -87,6 +88,15 @@ Definition cstep (k : client) (l : clabel) : option (client * list cobs) :=
     if cl_has k then
       if is_connected (cl_conn k) then
         match step (cl_conn k) (LSend tys) with
+        | Some (c1, o) => Some (after k c1 o)
+        | None => None
+        end
+      else Some (k, [CRaiseNotReady])
+    else Some (k, [CRaiseNotConnected])
+  | CRequest =>
+    if cl_has k then
+      if is_connected (cl_conn k) then
+        match step (cl_conn k) (LCallStart [id_of "DeviceInfoRequest"] [id_of "DeviceInfoResponse"] PAny PAny (10 * UNITS_PER_SECOND)) with
         | Some (c1, o) => Some (after k c1 o)
         | None => None
         end
